@@ -48,6 +48,11 @@ type C04Scenario struct {
 	// registration's type, unsubscribes itself from inside its invocation. It is gone afterwards either way;
 	// the other Once handlers fired by the same publish must still be retired.
 	SelfUnsub bool `json:"self_unsub,omitempty"`
+	// LateSubs: a further task subscribes these handlers WHILE the publishers run, one per entry (the entry is
+	// the event type). Each carries a filter that accepts nothing, so none is ever eligible (even entries are
+	// Once handlers, odd ones ordinary): all stay subscribed - and none of the earlier Once handlers may be
+	// lost or kept because the registry grew between a publish's snapshot and its removal step.
+	LateSubs []int `json:"late_subs,omitempty"`
 }
 
 func genC04(rt *rapid.T) core.Scenario {
@@ -107,6 +112,11 @@ func genC04(rt *rapid.T) core.Scenario {
 	sc.Panics = rapid.IntRange(0, 3).Draw(rt, "panics") == 3
 	sc.ShareOpts = rapid.IntRange(0, 2).Draw(rt, "shareOpts") == 2
 	sc.SelfUnsub = rapid.IntRange(0, 3).Draw(rt, "selfUnsub") == 3
+	if rapid.IntRange(0, 2).Draw(rt, "late") == 2 {
+		for n := rapid.IntRange(1, 3).Draw(rt, "nLate"); n > 0; n-- {
+			sc.LateSubs = append(sc.LateSubs, types[rapid.IntRange(0, nTypes-1).Draw(rt, "lateType")])
+		}
+	}
 	sc.Tape = core.DrawTape(rt, 300)
 	return sc
 }
@@ -204,9 +214,24 @@ func (sc *C04Scenario) Execute(t *testing.T) *core.Outcome {
 				}
 			}))
 		}
+		var lateErr error
+		if len(sc.LateSubs) > 0 {
+			tasks = append(tasks, simrt.GoNamed("latesub", func() {
+				for j, ti := range sc.LateSubs {
+					simrt.Yield(siteHandler)
+					if err := w.SubscribeUID(ti, numSites-3, 8000+j, SubOpts{Once: j%2 == 0, Filter: 3}); err != nil {
+						lateErr = err
+					}
+				}
+			}))
+		}
 		simrt.Join(tasks...)
 		w.Bus.Wait()
 		w.Rec.Add("quiescent", 0, 0, "")
+		if lateErr != nil {
+			out.HarnessErr = "late subscribe: " + lateErr.Error()
+			return
+		}
 
 		// ---- oracle, phase 1
 		eligible := func(r C04Reg) []int {
@@ -230,6 +255,12 @@ func (sc *C04Scenario) Execute(t *testing.T) *core.Outcome {
 		}
 		fired := map[int]bool{}
 		expectCount := map[int]int{}
+		for j, ti := range sc.LateSubs {
+			expectCount[ti]++
+			if len(inv[8000+j]) > 0 {
+				out.V("once-fired-ineligible", "late handler %d (filter accepts nothing) ran for %v", j, inv[8000+j])
+			}
+		}
 		for k, r := range sc.Regs {
 			e := eligible(r)
 			got := inv[k]
